@@ -118,7 +118,7 @@ def _run_spec_all(item):
         ident.__info__ = dict(f.__info__)
         f2.pop(nm)
         f2[nm] = ident
-        cols[arg] = hostile_x(rng, spec["base"], 0)[:120]
+        cols[arg] = hostile_x(rng, spec["base"], 0)[:300]
         specs[nm] = (arg, spec)
     if len(specs) < 2:
         res["status"] = "fewer_than_two_rounded_rules"
@@ -273,6 +273,9 @@ def hostile_x(rng, base, offset):
         g = k * base
         xs += [g, np.nextafter(g, np.inf), np.nextafter(g, -np.inf), g + base / 2, np.nextafter(g + base / 2, np.inf),
                np.nextafter(g + base / 2, -np.inf), g + 0.3 * base, g + 0.7 * base, g + 0.01, g - 0.01]
+        if abs(k) <= 123:  # points very close to (but not on) grid and half-way points
+            for rel in (1e-3, 1e-4, 3e-5, 1e-5, 1e-6, 1e-7):
+                xs += [g + rel * base, g - rel * base, g + base / 2 + rel * base, g + base / 2 - rel * base]
     xs += list(np.round(rng.uniform(-1000, 200000, 40), 2)) + list(rng.uniform(-10, 10, 20))
     return np.array(xs, dtype=float)
 
